@@ -5,7 +5,7 @@
    parse_lines = parse_script after line splitting; llines = the logical lines (index of first physical line, text);
    pfold = the fold of pstep over them (Model/ScriptX.v, proved equal to ploop in Proofs/ScriptFacts.v). *)
 From BS Require Import Model.Base Model.Regex Model.ExprParser Model.Script Model.ScriptX Model.PErr
-  Proofs.ScriptFacts Proofs.PErrFacts Proofs.C06.
+  Proofs.ScriptFacts Proofs.PErrFacts Proofs.C06 Proofs.C06Cols.
 
 (* ---- (1) accounting: an accepted text leaves nothing open and every logical line was folded exactly once ---- *)
 Theorem C06_accounts : forall chunks start s,
@@ -50,6 +50,21 @@ Theorem C06_step_error : forall ps n line e,
    (exists f, In f (ps_frames ps) /\ e_lineno e = Some (frame_lineno f) /\ e_line e = frame_line f)).
 Proof. exact pstep_err. Qed.
 Print Assumptions C06_step_error.
+
+(* the column arithmetic of every statement kind (len(line) - len(expr), len(jump) - len(expr) - 1, len(return) - len(expr),
+   match.start(group)) IS the offset at which the parsed expression text sits in the line (LF-free line) ... *)
+Theorem C06_offsets : forall line k, no_lf line -> classify line = ROk k -> kind_offsets line k.
+Proof. exact classify_offsets. Qed.
+Print Assumptions C06_offsets.
+
+(* ... hence an error is either a whole-line error at column 1 or the expression parser's error on the text at
+   [off, off+len) of the line, and column - 1 is the position in the line where the unparsed remainder begins *)
+Theorem C06_column_points_at_remainder : forall ps n line e,
+  no_lf line -> pstep ps n line = RErr e -> e_col e = 1 \/ expr_error_at line e.
+Proof. exact pstep_err_column. Qed.
+Print Assumptions C06_column_points_at_remainder.
+(* _partial with respect to parse_script: the hypothesis "no LF in the logical line" is proved for the lines of the direct
+   splitter (C10_lines_have_no_lf) but not through the regex-based split / continuation join of the shared model. *)
 
 (* ---- (3) shift ---- *)
 (* k comment or blank lines in front: the result is the same with every reported line number + k *)
@@ -129,6 +144,18 @@ Example C06_ex_dangling :
   parse_script [U "a = 1\00000ab = 2 + \00005c\00000a   3 \00005c"] 1 =
   RErr {| e_msg := U "Unexpected end of script in line continuation"; e_line := U "b = 2 + 3"; e_col := 1; e_lineno := Some 2 |}.
 Proof. vm_compute. reflexivity. Qed.
+
+Example C06_ex_column :
+  no_lf (U "  jumpif (a + $ b) lbl ") /\
+  exists e, pstep ps_init 3 (U "  jumpif (a + $ b) lbl ") = RErr e /\ e_col e = 14 /\ expr_error_at (U "  jumpif (a + $ b) lbl ") e.
+Proof.
+  assert (N : no_lf (U "  jumpif (a + $ b) lbl ")) by (vm_compute; intuition discriminate).
+  assert (E : pstep ps_init 3 (U "  jumpif (a + $ b) lbl ") =
+              RErr {| e_msg := U "Syntax error"; e_line := U "  jumpif (a + $ b) lbl "; e_col := 14; e_lineno := Some 3 |})
+    by (vm_compute; reflexivity).
+  split; [exact N|]. eexists. split; [exact E|]. split; [reflexivity|].
+  destruct (pstep_err_column _ _ _ _ N E) as [H|H]; [discriminate H | exact H].
+Qed.
 
 Example C06_ex_comment_lines : Forall (fun c => is_comment c = ROk true) [U ""; U "   "; U "  # c \00005c"; U "#"].
 Proof. repeat constructor. Qed.
